@@ -121,7 +121,8 @@ func raceSolvers(o *Obligation, file string, tmo int, want string) []string {
 		}})
 	}
 	specs = append(specs, solvers[1])
-	// the same goal with fewer hypotheses (sound: assumptions are only dropped): the definitions the goal
+	// the same goal with fewer hypotheses (an "unsat" carries over, assumptions are only dropped; a "sat" does not
+	// and is discarded below): the definitions the goal
 	// depends on and the assumptions that share a symbol with it
 	if cone := coneOfInfluence(o.smt(false), 1); cone != "" {
 		f3 := file + ".cone.smt2"
@@ -152,6 +153,10 @@ func raceSolvers(o *Obligation, file string, tmo int, want string) []string {
 		x := <-ch
 		if x.ms > maxMs {
 			maxMs = x.ms
+		}
+		if x.r == "sat" && strings.Contains(x.name, "relevant hypotheses") {
+			// with hypotheses dropped only a refutation ("unsat") carries over to the full goal
+			x.r = "unknown"
 		}
 		if x.r == "unsat" || x.r == "sat" {
 			tried = append(tried, x.name+":"+x.r)
